@@ -495,7 +495,17 @@ pub fn drive(spec: &Value) -> CaseOut {
         return crate::bad_case(format!("unknown ift scenario {spec}"));
     };
     let mut blobs = sc.blobs.clone();
-    if let Some(bi) = spec["blob"].as_u64() {
+    if let (Some(bi), Some(k)) = (spec["blob"].as_u64(), spec["trunc"].as_u64()) {
+        // truncation case: the blob loses its last k bytes
+        let Some(blob) = blobs.get_mut(bi as usize) else {
+            return crate::bad_case(format!("bad blob index {spec}"));
+        };
+        if k as usize > blob.1.len() {
+            return crate::bad_case(format!("truncation beyond blob {spec}"));
+        }
+        let keep = blob.1.len() - k as usize;
+        blob.1.truncate(keep);
+    } else if let Some(bi) = spec["blob"].as_u64() {
         let Some(blob) = blobs.get_mut(bi as usize) else {
             return crate::bad_case(format!("bad blob index {spec}"));
         };
@@ -512,6 +522,20 @@ pub fn drive(spec: &Value) -> CaseOut {
 /// Case generator: every scenario unmodified, then every single deviation (byte alphabet + rich u16 alphabet,
 /// see `fontcase::table_deviations_ext`) of
 /// the first `max_bytes` bytes of each of its blobs.
+/// Truncation cases: every blob of every scenario (mapping tables, patches, base-font tables) shortened by
+/// k = 1..=32 bytes (k <= length).
+pub fn gen_truncation_cases(full: bool) -> Vec<Value> {
+    let mut out = vec![];
+    for sc in scenarios() {
+        for (bi, (_, data)) in sc.blobs.iter().enumerate() {
+            for k in 1..=32usize.min(data.len()) {
+                out.push(json!({"driver": "ift", "scenario": sc.name, "blob": bi, "trunc": k, "full": full}));
+            }
+        }
+    }
+    out
+}
+
 pub fn gen_cases(max_bytes: usize, full: bool) -> Vec<Value> {
     let mut out = vec![];
     for sc in scenarios() {
